@@ -541,7 +541,7 @@ func (s *sut) compare() (res string) {
 			}
 		}
 	}
-	limits := []uint64{0, 8, math.MaxUint64}
+	limits := []uint64{0, 8, 20, math.MaxUint64}
 	for lo := uint64(0); lo <= m.sto.last()+1; lo++ {
 		for hi := lo; hi <= m.sto.last()+1; hi++ {
 			for _, mx := range limits {
